@@ -89,3 +89,9 @@ p["streams"] += [S("sched", 300, 4000, 4)]
 p["rule"] += " | sched: the schedule replay of C12/C13 (model-chosen interleavings with expiry and failing/uncacheable revalidations on the real goroutines); oracle: no client is served an expired entry (the scripted origin grants no stale allowance)"
 p["modules"] += ["RrProofs.Props.C12"]
 p["theorems"] += [T("Props.C12.lock_mutex", "full", "interleaving model: mutual exclusion of the writer section (the concurrent half of C08: a revalidation holds the key)")]
+
+# C13 in sequential histories (stream sysc): after an origin body read error nobody is served the partial data
+p = _ensure("C13", "A failed or aborted fetch never wedges or poisons its cache key")
+p["streams"] += [S("sysc", 6000, 80000)]
+p["rule"] += _SYSC_RULE + "; origin answers may break off mid-body (fresh fills and revalidating 200 fills): oracle C13: nobody is served from the cache a strict prefix of an origin body, later requests get complete answers"
+p["trivial_labels"] = list(p.get("trivial_labels", [])) + ["no-origin", "unparsed"]
